@@ -2311,6 +2311,12 @@ evhttp_parse_headers_(struct evhttp_request *req, struct evbuffer* buffer)
 		if (svalue == NULL)
 			goto error;
 
+		/* RFC 9112 5.1: no whitespace is allowed between the field
+		 * name and the colon; such a message must be rejected */
+		if (svalue - skey >= 2 &&
+		    (svalue[-2] == ' ' || svalue[-2] == '\t'))
+			goto error;
+
 		svalue += strspn(svalue, " ");
 		evutil_rtrim_lws_(svalue);
 
